@@ -282,7 +282,10 @@ static size_t safec_ntoa_format(out_fct_type out, const char *funcname,
         } else if ((base == 2U) && (len < PRINTF_NTOA_BUFFER_SIZE)) {
             buf[len++] = 'b';
         }
-        if (len < PRINTF_NTOA_BUFFER_SIZE) {
+        // octal: '#' only forces a leading zero; the precision may have
+        // supplied it already
+        if ((len < PRINTF_NTOA_BUFFER_SIZE) &&
+            !((base == 8U) && (flags & FLAGS_PRECISION) && len > ndigits)) {
             buf[len++] = '0';
         }
     }
@@ -317,6 +320,11 @@ static size_t safec_ntoa_long(out_fct_type out, const char *funcname,
 
     // no hash for 0 values
     if (!value) {
+        // but "%#.0o" of 0 is "0"
+        if ((base == 8U) && (flags & FLAGS_HASH) && (flags & FLAGS_PRECISION) &&
+            !prec) {
+            buf[len++] = '0';
+        }
         flags &= ~FLAGS_HASH;
     }
 
@@ -347,6 +355,11 @@ static size_t safec_ntoa_long_long(out_fct_type out, const char *funcname,
 
     // no hash for 0 values
     if (!value) {
+        // but "%#.0o" of 0 is "0"
+        if ((base == 8U) && (flags & FLAGS_HASH) && (flags & FLAGS_PRECISION) &&
+            !prec) {
+            buf[len++] = '0';
+        }
         flags &= ~FLAGS_HASH;
     }
 
